@@ -99,7 +99,7 @@ func VerifC20Export() {
 			curNum, curDen = num, den
 		}
 		blen := int(curNum) * 32 / int(curDen)
-		for k := 0; k < E; k++ {
+		for k := 0; k < E && b < zz.Param("evbars"); k++ {
 			pos := zz.U8("pos")
 			zz.Assume(int(pos) < blen)
 			trk := zz.Choice("track", zz.Param("tracks"))
